@@ -1507,6 +1507,15 @@ def c08_r3_no_dropped_errors(ctx):
         ('<CursorMut as Drop>::drop', 'CursorMut::finish'): 'Drop cannot report; finish() poisons (C05.R4)',
     }
     ds = core.discard_sites(ctx.facts)
+    # the backend's own io::Error results (file backends, StorageBackend methods) are errors of the same kind
+    have = {(c.fn.path, c.bb) for c in ds}
+    for c in core.discard_sites_generic(ctx.facts, ['Error']):
+        et = core.result_err_type(c.t.get('dty', '')) or ''
+        if 'io::' in et and (c.fn.path, c.bb) not in have:
+            ds.append(c)
+    io_total = sum(1 for f_ in ctx.facts.fn_list for c_ in f_.calls if 'io::' in (core.result_err_type(c_.t.get('dty', '')) or ''))
+    if ctx.cfg != 'N':
+        ctx.check(io_total >= 15, 'floor|io-result-calls', 'calls returning io::Error examined: %d' % io_total)
     seen = set()
     for c in ds:
         root = ctx.facts.root_of(c.fn)
